@@ -1,4 +1,5 @@
 import Martian.Util
+import Martian.Model.ConfigCond
 /-!
 C12 — JSON modifier configuration trees: `parse.FromJSON`, `parse.NewResult`, `fifo.groupFromJSON`,
 `priority.groupFromJSON` (with the insertion loop of `AddRequestModifier`/`AddResponseModifier`),
@@ -6,15 +7,13 @@ the five `filterFromJSON` (url/header/querystring/method/cookie — textually th
 the condition), `fifo.Group.Modify*`, `priority.Group.Modify*`, `filter.Filter.Modify*`,
 `MultiError.Add`, and `martianhttp.Modifier.servePOST` / `Modify*`.
 
-What is NOT modelled (trusted, see manifest): the text level of JSON (`encoding/json`): the tree below
-is what the JSON text *says*; a text that is not JSON, or a sub-value of the wrong JSON type, is the
-node `malformed`. Filter conditions are atoms `cond : Nat`; a message is a valuation of the atoms
-(the five matchers are library-level string comparisons, evaluated on the Go side).
+The tree below is what the JSON text *says* after `encoding/json` decoding (`Model/ConfigJson.lean`
+models that decoding on JSON values: field lookup, duplicate keys, `null`s, number literals); a text
+that is not JSON, or a sub-value of the wrong JSON type, is the node `malformed`. Filter conditions are
+the concrete `Cond` of `Model/ConfigCond.lean`; evaluation is parametric in a valuation `Cond → Bool`,
+which a concrete exchange induces through the five matchers (`Message.val`).
 -/
 namespace Martian.Config
-
-inductive Kind | req | res
-  deriving DecidableEq, Repr
 
 /-- One element of a JSON `"scope"` list: `"request"`, `"response"`, or any other string. -/
 inductive Tok | request | response | other
@@ -49,7 +48,7 @@ inductive Node
   | malformed
   | fifo (scope : Scope) (agg : Bool) (cs : List Node)
   | prio (scope : Scope) (cs : List (Int × Node))
-  | filter (cond : Nat) (scope : Scope) (thn : Node) (els : Option Node)
+  | filter (cond : Cond) (scope : Scope) (thn : Node) (els : Option Node)
   deriving Repr
 
 /-- Error returned by a modifier: nil, a leaf's own error, or a `*martian.MultiError`. -/
@@ -73,7 +72,7 @@ inductive Mod
   | noop
   | fifo (agg : Bool) (ms : List Mod)
   | prio (ms : List (Int × Mod))
-  | filter (cond : Nat) (t f : Mod)
+  | filter (cond : Cond) (t f : Mod)
   deriving Repr
 
 /-- `parse.Result`: `reqmod`, `resmod` (Go nil = `none`). -/
@@ -193,22 +192,26 @@ def prioLoop : List Outcome → Outcome
 mutual
 /-- `ModifyRequest` / `ModifyResponse` of a compiled modifier on a message whose condition
 valuation (for that message kind) is `v`. -/
-def eval (v : Nat → Bool) : Mod → Outcome
+def eval (v : Cond → Bool) : Mod → Outcome
   | .probe l fail => ([l], if fail then .single l else .none)
   | .noop => ([], .none)
   | .fifo agg ms => fifoLoop agg (evalList v ms) []
   | .prio ms => prioLoop (evalPList v ms)
   | .filter c t f => if v c then eval v t else eval v f
-def evalList (v : Nat → Bool) : List Mod → List Outcome
+def evalList (v : Cond → Bool) : List Mod → List Outcome
   | [] => []
   | m :: ms => eval v m :: evalList v ms
-def evalPList (v : Nat → Bool) : List (Int × Mod) → List Outcome
+def evalPList (v : Cond → Bool) : List (Int × Mod) → List Outcome
   | [] => []
   | (_, m) :: ms => eval v m :: evalPList v ms
 end
 
-/-- A message: which condition atoms hold for its request side and its response side. -/
-abbrev Msg := Kind → Nat → Bool
+/-- A message, abstractly: which conditions hold for its request side and its response side
+(`Message.toMsg` gives the one a concrete exchange induces). -/
+abbrev Msg := Kind → Cond → Bool
+
+/-- The valuation a concrete exchange induces through the five matchers. -/
+def Message.toMsg (m : Message) : Msg := fun k c => holds c k m
 
 /-- `martianhttp.Modifier.ModifyRequest/ModifyResponse` with the active configuration `r`
 (`setRequestModifier(nil)` installs the noop). -/
@@ -257,7 +260,7 @@ def prioOrder {α : Type} (cs : List (Int × α)) : List (Int × α) := stableSo
 mutual
 /-- Effect of the tree on a message of kind `k` with condition valuation `v`:
 (labels of the leaves that ran, in order; errors reported). -/
-def specEval (k : Kind) (v : Nat → Bool) : Node → SOutcome
+def specEval (k : Kind) (v : Cond → Bool) : Node → SOutcome
   | .leaf l caps fq fs scope =>
     if acts scope caps k then ([l], if (match k with | .req => fq | .res => fs) then [l] else []) else ([], [])
   | .unknown => ([], [])
@@ -268,13 +271,13 @@ def specEval (k : Kind) (v : Nat → Bool) : Node → SOutcome
     if acts scope Caps.both k then firstError ((prioOrder (specPList k v cs)).map (·.2)) else ([], [])
   | .filter c scope t e =>
     if acts scope Caps.both k then (if v c then specEval k v t else specOpt k v e) else ([], [])
-def specList (k : Kind) (v : Nat → Bool) : List Node → List SOutcome
+def specList (k : Kind) (v : Cond → Bool) : List Node → List SOutcome
   | [] => []
   | c :: cs => specEval k v c :: specList k v cs
-def specPList (k : Kind) (v : Nat → Bool) : List (Int × Node) → List (Int × SOutcome)
+def specPList (k : Kind) (v : Cond → Bool) : List (Int × Node) → List (Int × SOutcome)
   | [] => []
   | (p, c) :: cs => (p, specEval k v c) :: specPList k v cs
-def specOpt (k : Kind) (v : Nat → Bool) : Option Node → SOutcome
+def specOpt (k : Kind) (v : Cond → Bool) : Option Node → SOutcome
   | none => ([], [])
   | some e => specEval k v e
 end
